@@ -911,3 +911,36 @@ def rule_existence_through_open_aid(ctx):
                         ctx.violated("OPENLEN", key, f.where(line), "the recorded length of the image's element decides whether data exists, with no test of img_aid before it: while a compressed image is open for writing that length is still 0 and written pixels are taken for absent")
     ctx.floor("OPENLEN", 1, n, "(Hlength calls on an image's data element)")
     return n
+
+
+def rule_id_record_interlace(ctx):
+    """DISKIL (C15, C09): GR stores every image pixel-interlaced - GRwriteimage converts the caller's buffer to
+    MFGR_INTERLACE_PIXEL before it writes - while `img_dim.il` remembers the interlace the *user* created the image with.  The
+    image dimension record (DFTAG_ID) describes the bytes in the file for every reader, the single-file DF24 interface
+    included, so the routine that builds it encodes the constant MFGR_INTERLACE_PIXEL, never `img_dim.il`: with the user's
+    interlace in the record GR still reads its own images correctly (it ignores the field) and DF24getimage returns
+    scrambled components."""
+    from .facts import calls_in, int_name
+    prog = ctx.prog
+    n = 0
+    for f in prog.lib_funcs():
+        if not f.rel.endswith("hdf/src/mfgr.c"):
+            continue
+        writes_id = any(c[1] == "Hputelement" and len(c[3]) > 1 and int_name(c[3][1]) == "DFTAG_ID" for _b, _i, _s, c in f.calls())
+        if not writes_id:
+            continue
+        n += 1
+        key = "DISKIL:%s" % f.name
+        reads_user_il = None
+        has_const = False
+        for _b, _i, s, x in f.nodes(True):
+            if x[0] == "mem" and x[2] == "il" and render(strip(x[1])).endswith("img_dim"):
+                reads_user_il = s.get("l", f.line)
+            if x[0] == "int" and int_name(x) == "MFGR_INTERLACE_PIXEL":
+                has_const = True
+        if reads_user_il:
+            ctx.violated("DISKIL", key, f.where(reads_user_il), "the routine that writes the DFTAG_ID record reads `img_dim.il` (the interlace the image was created with): the record then describes pixel-interlaced bytes as line- or component-interlaced")
+        else:
+            ctx.holds("DISKIL", key, f.where(), "the DFTAG_ID record is built without consulting the interlace the image was created with", nontrivial=True)
+    ctx.floor("DISKIL", 1, n, "(builders of the image dimension record)")
+    return n
